@@ -4,8 +4,13 @@
  *   W new-sem H sN INIT OPEN|CREATE | W acq H | W rel H | W own H | W free H
  *   W new-shm H mN SIZE [ro] | W lock H | W unlock H | W wr H OFF BYTE | W rd H OFF | W size H
  *   W kill (SIGKILL of the idle worker, a fresh process takes its place) | obs | reset
- * No system-call wrappers, traces, EINTR scripts or crash points inside a call (that is the posix model's job): the
- * answers are the API view only ("ok", "ok SIZE", "fail", a byte, a size), `obs` prints `<api view> || <internal>`.
+ * Every system call the library makes during an op (open/close/stat/ftok/unlink of the key files, semget/semctl/semop,
+ * shmget/shmctl/shmat/shmdt) goes through a link-time wrapper (-Wl,--wrap=…) and is logged: the answer of an op is
+ * `<system calls> => <result>` exactly as `pvdriver ipcsysv` (model PV.Model.IPCSysV) prints it;
+ *   W crash K <op…> / W crashA K <op…>   SIGKILL of the worker when K system calls of the op have completed (at the
+ *                                         entry of the next one or at the return / right after the K-th call),
+ *   W eintr N1,N2,… <op…>                Ni EINTR results before the i-th system call where it is a semop;
+ * `obs` prints `<api view> || <internal>`.
  * `obs`: value of every semaphore name observed through the API (an observer process drains it through a fresh OPEN
  * handle and gives the units back; every step is SEM_UNDO neutral) and cross-checked with semctl(GETVAL); segment
  * size (shmctl IPC_STAT), lock value, what every live PShm handle reports and reads, and the number of attachments
@@ -195,6 +200,163 @@ static void emit (const char *fmt, ...) {
 	if (wr_all (resp_fd, b, (size_t) n) != 0) _exit (7);
 }
 
+/* ---------------------------------------------------------------- wrappers (armed only while a worker runs an op) */
+int __real_open (const char *, int, ...);
+int __real_close (int);
+int __real_stat (const char *, struct stat *);
+key_t __real_ftok (const char *, int);
+int __real_unlink (const char *);
+int __real_semget (key_t, int, int);
+int __real_semctl (int, int, int, ...);
+int __real_semop (int, struct sembuf *, size_t);
+int __real_shmget (key_t, size_t, int);
+int __real_shmctl (int, int, struct shmid_ds *);
+void *__real_shmat (int, const void *, int);
+int __real_shmdt (const void *);
+
+static int armed, ncalls, crash_at = -1, crash_after = -1, eintr_script[32], eintr_n;
+static char last_ftok[16] = "?";
+
+static const char *ename (int e) {
+	static char b[16];
+	switch (e) {
+	case EINTR: return "EINTR"; case EEXIST: return "EEXIST"; case ENOENT: return "ENOENT"; case EINVAL: return "EINVAL";
+	case EIDRM: return "EIDRM"; case ERANGE: return "ERANGE"; case EACCES: return "EACCES";
+	default: snprintf (b, sizeof b, "E%d", e); return b;
+	}
+}
+
+static const char *sym_of_path (const char *p, char *out) {
+	for (int i = 0; i < NN; ++i) {
+		if (!strcmp (p, sem_file[i])) { snprintf (out, 16, "s%d", i); return out; }
+		if (!strcmp (p, shm_file[i])) { snprintf (out, 16, "m%d", i); return out; }
+		if (!strcmp (p, lock_file[i])) { snprintf (out, 16, "m%d.l", i); return out; }
+	}
+	snprintf (out, 16, "?");
+	return out;
+}
+
+/* entry of a wrapped call: 1 = an EINTR is injected instead of the real call */
+static int pre (int interruptible, const char *desc) {
+	if (crash_at >= 0 && ncalls == crash_at) raise (SIGKILL);
+	if (interruptible && ncalls < eintr_n && eintr_script[ncalls] > 0) {
+		eintr_script[ncalls]--;
+		emit ("T %s=EINTR\n", desc);
+		return 1;
+	}
+	return 0;
+}
+
+static void post (const char *desc, int failed, int err, const char *val) {
+	++ncalls;
+	if (failed) emit ("T %s=%s\n", desc, ename (err));
+	else emit ("T %s=%s\n", desc, val ? val : "ok");
+	if (crash_after >= 0 && ncalls == crash_after) raise (SIGKILL);
+	errno = err;
+}
+
+int __wrap_open (const char *path, int flags, ...) {
+	va_list ap; va_start (ap, flags); mode_t mode = (flags & O_CREAT) ? va_arg (ap, mode_t) : 0; va_end (ap);
+	if (!armed) return __real_open (path, flags, mode);
+	char d[96], sb[16]; snprintf (d, sizeof d, "open(%s)/%d/%d", sym_of_path (path, sb), flags, (int) mode);
+	pre (0, d);
+	int r = __real_open (path, flags, mode), e = errno;
+	post (d, r < 0, e, NULL);
+	return r;
+}
+int __wrap_close (int fd) {
+	if (!armed) return __real_close (fd);
+	pre (0, "close");
+	int r = __real_close (fd), e = errno;
+	post ("close", r != 0, e, NULL);
+	return r;
+}
+int __wrap_stat (const char *path, struct stat *st) {
+	if (!armed) return __real_stat (path, st);
+	char d[64], sb[16]; snprintf (d, sizeof d, "stat(%s)", sym_of_path (path, sb));
+	pre (0, d);
+	int r = __real_stat (path, st), e = errno;
+	post (d, r != 0, e, NULL);
+	return r;
+}
+key_t __wrap_ftok (const char *path, int proj) {
+	if (!armed) return __real_ftok (path, proj);
+	char d[64]; snprintf (d, sizeof d, "ftok(%s)/%d", sym_of_path (path, last_ftok), proj);
+	pre (0, d);
+	key_t r = __real_ftok (path, proj); int e = errno;
+	post (d, r == (key_t) -1, e, NULL);
+	return r;
+}
+int __wrap_unlink (const char *path) {
+	if (!armed) return __real_unlink (path);
+	char d[64], sb[16]; snprintf (d, sizeof d, "unlink(%s)", sym_of_path (path, sb));
+	pre (0, d);
+	int r = __real_unlink (path), e = errno;
+	post (d, r != 0, e, NULL);
+	return r;
+}
+int __wrap_semget (key_t k, int n, int flags) {
+	if (!armed) return __real_semget (k, n, flags);
+	char d[96]; snprintf (d, sizeof d, "semget(%s)/%d/%d", last_ftok, n, flags);
+	pre (0, d);
+	int r = __real_semget (k, n, flags), e = errno;
+	if (r >= 0) log_id ('s', r);
+	post (d, r < 0, e, NULL);
+	return r;
+}
+int __wrap_semctl (int id, int num, int cmd, ...) {
+	int v = 0;
+	if (cmd == SETVAL) { va_list ap; va_start (ap, cmd); union semun_ u = va_arg (ap, union semun_); va_end (ap); v = u.val; }
+	union semun_ u; u.val = v;
+	if (!armed) return cmd == SETVAL ? __real_semctl (id, num, cmd, u) : __real_semctl (id, num, cmd);
+	char d[64]; snprintf (d, sizeof d, "semctl/%d/%d", cmd, v);
+	pre (0, d);
+	int r = cmd == SETVAL ? __real_semctl (id, num, cmd, u) : __real_semctl (id, num, cmd), e = errno;
+	post (d, r < 0, e, NULL);
+	return r;
+}
+int __wrap_semop (int id, struct sembuf *b, size_t n) {
+	if (!armed) return __real_semop (id, b, n);
+	char d[64]; snprintf (d, sizeof d, "semop/%d/%d/%d", (int) b->sem_num, (int) b->sem_op, (int) b->sem_flg);
+	if (pre (1, d)) { errno = EINTR; return -1; }
+	int r = __real_semop (id, b, n), e = errno;
+	post (d, r != 0, e, NULL);
+	return r;
+}
+int __wrap_shmget (key_t k, size_t size, int flags) {
+	if (!armed) return __real_shmget (k, size, flags);
+	char d[96]; snprintf (d, sizeof d, "shmget(%s)/%zu/%d", last_ftok, size, flags);
+	pre (0, d);
+	int r = __real_shmget (k, size, flags), e = errno;
+	if (r >= 0) log_id ('m', r);
+	post (d, r < 0, e, NULL);
+	return r;
+}
+int __wrap_shmctl (int id, int cmd, struct shmid_ds *ds) {
+	if (!armed) return __real_shmctl (id, cmd, ds);
+	char d[64], v[64]; snprintf (d, sizeof d, "shmctl/%d", cmd);
+	pre (0, d);
+	int r = __real_shmctl (id, cmd, ds), e = errno;
+	if (r == 0 && cmd == IPC_STAT && ds) snprintf (v, sizeof v, "%zu:%d", (size_t) ds->shm_segsz, (int) ds->shm_nattch);
+	post (d, r != 0, e, (r == 0 && cmd == IPC_STAT && ds) ? v : NULL);
+	return r;
+}
+void *__wrap_shmat (int id, const void *a, int flags) {
+	if (!armed) return __real_shmat (id, a, flags);
+	char d[64]; snprintf (d, sizeof d, "shmat/%d", flags);
+	pre (0, d);
+	void *r = __real_shmat (id, a, flags); int e = errno;
+	post (d, r == (void *) -1, e, NULL);
+	return r;
+}
+int __wrap_shmdt (const void *a) {
+	if (!armed) return __real_shmdt (a);
+	pre (0, "shmdt");
+	int r = __real_shmdt (a), e = errno;
+	post ("shmdt", r != 0, e, NULL);
+	return r;
+}
+
 /* ---------------------------------------------------------------- worker */
 static void *hs[NH];
 static int htype[NH];    /* 0 none, 1 semaphore, 2 shm */
@@ -219,22 +381,24 @@ static void do_op (char **t, int n, char *res, size_t rn) {
 	if (!strcmp (t[0], "new-sem") && n == 5 && !htype[h] && t[2][0] == 's') {
 		int i = atoi (t[2] + 1); if (i < 0 || i >= NN) return;
 		int mode = !strcmp (t[4], "CREATE") ? P_SEM_ACCESS_CREATE : P_SEM_ACCESS_OPEN;
-		PSemaphore *s = p_semaphore_new (sem_name[i], atoi (t[3]), mode, &err);
+		armed = 1; PSemaphore *s = p_semaphore_new (sem_name[i], atoi (t[3]), mode, &err); armed = 0;
 		if (s) { hs[h] = s; htype[h] = 1; snprintf (res, rn, "ok"); } else fail_str (res, rn, err);
 	} else if (!strcmp (t[0], "new-shm") && (n == 4 || n == 5) && !htype[h] && t[2][0] == 'm') {
 		int i = atoi (t[2] + 1); if (i < 0 || i >= NN) return;
+		armed = 1;
 		PShm *s = p_shm_new (shm_name[i], (psize) strtoull (t[3], NULL, 10),
 				     n == 5 ? P_SHM_ACCESS_READONLY : P_SHM_ACCESS_READWRITE, &err);
+		armed = 0;
 		if (s) {
 			hs[h] = s; htype[h] = 2; snprintf (res, rn, "ok %zu", (size_t) p_shm_get_size (s));
 			int id = shm_id_of (shm_file[i]);
 			if (id >= 0 && n_my_shm < 256) { my_shmid[n_my_shm] = id; my_shmname[n_my_shm++] = i; }
 		} else fail_str (res, rn, err);
 	} else if ((!strcmp (t[0], "acq") || !strcmp (t[0], "rel")) && n == 2 && htype[h] == 1) {
-		pboolean r = t[0][0] == 'a' ? p_semaphore_acquire (hs[h], &err) : p_semaphore_release (hs[h], &err);
+		armed = 1; pboolean r = t[0][0] == 'a' ? p_semaphore_acquire (hs[h], &err) : p_semaphore_release (hs[h], &err); armed = 0;
 		if (r) snprintf (res, rn, "ok"); else fail_str (res, rn, err);
 	} else if ((!strcmp (t[0], "lock") || !strcmp (t[0], "unlock")) && n == 2 && htype[h] == 2) {
-		pboolean r = t[0][0] == 'l' ? p_shm_lock (hs[h], &err) : p_shm_unlock (hs[h], &err);
+		armed = 1; pboolean r = t[0][0] == 'l' ? p_shm_lock (hs[h], &err) : p_shm_unlock (hs[h], &err); armed = 0;
 		if (r) snprintf (res, rn, "ok"); else fail_str (res, rn, err);
 	} else if (!strcmp (t[0], "own") && n == 2 && htype[h]) {
 		if (htype[h] == 1) p_semaphore_take_ownership (hs[h]); else p_shm_take_ownership (hs[h]);
@@ -242,7 +406,7 @@ static void do_op (char **t, int n, char *res, size_t rn) {
 	} else if (!strcmp (t[0], "free") && n == 2 && htype[h]) {
 		int ty = htype[h]; void *p = hs[h];
 		hs[h] = NULL; htype[h] = 0;
-		if (ty == 1) p_semaphore_free (p); else p_shm_free (p);
+		armed = 1; if (ty == 1) p_semaphore_free (p); else p_shm_free (p); armed = 0;
 		snprintf (res, rn, "ok");
 	} else if (!strcmp (t[0], "size") && n == 2 && htype[h] == 2) {
 		snprintf (res, rn, "%zu", (size_t) p_shm_get_size (hs[h]));
@@ -333,7 +497,16 @@ static void worker_loop (void) {
 		if (!strcmp (t[0], "views")) { views (); continue; }
 		if (!strcmp (t[0], "maps")) { maps (); continue; }
 		if (!strcmp (t[0], "drain") && n == 2) { drain (t[1]); continue; }
-		do_op (t, n, res, sizeof res);
+		crash_at = crash_after = -1; eintr_n = 0; ncalls = 0;
+		char **op = t; int on = n;
+		if (!strcmp (t[0], "crash") && n > 2) { crash_at = atoi (t[1]); op += 2; on -= 2; }
+		else if (!strcmp (t[0], "crashA") && n > 2) { crash_after = atoi (t[1]); op += 2; on -= 2; }
+		else if (!strcmp (t[0], "eintr") && n > 2) {
+			for (char *p = strtok (t[1], ","); p && eintr_n < 32; p = strtok (NULL, ",")) eintr_script[eintr_n++] = atoi (p);
+			op += 2; on -= 2;
+		}
+		do_op (op, on, res, sizeof res);
+		if (crash_at >= 0 && ncalls == crash_at && ncalls > 0) raise (SIGKILL);
 		emit ("R %s\n", res);
 	}
 	_exit (0);
@@ -344,8 +517,13 @@ struct child { pid_t pid; int cmd, resp; };
 static struct child W[NW], OBS;
 static int owner[NH];
 
+static int op_pos (char **t, int n, int from) {
+	if (from < n && (!strcmp (t[from], "crash") || !strcmp (t[from], "crashA") || !strcmp (t[from], "eintr"))) return from + 2;
+	return from;
+}
+
 static int op_allowed (char **t, int n, int from, int w) {
-	int p = from;
+	int p = op_pos (t, n, from);
 	if (p + 1 >= n) return 0;
 	int h = atoi (t[p + 1]);
 	if (t[p + 1][0] < '0' || t[p + 1][0] > '9' || h >= NH) return 0;
@@ -354,7 +532,7 @@ static int op_allowed (char **t, int n, int from, int w) {
 }
 
 static void op_done (char **t, int n, int from, int w, const char *res) {
-	int p = from;
+	int p = op_pos (t, n, from);
 	if (p + 1 >= n) return;
 	int h = atoi (t[p + 1]);
 	if (h < 0 || h >= NH) return;
@@ -415,14 +593,17 @@ static int recv_line (struct child *c, char *buf, size_t n, int timeout_ms) {
 
 #define OP_TIMEOUT 5000
 
-/* 'R' result, 'D' died, 'T' timeout */
+/* 'R' result, 'D' died, 'T' timeout; system-call tokens ("T …") are appended to `trace` */
+static char *cur_trace; static size_t cur_trace_n;
 static int collect (struct child *c, char *res, size_t rn) {
 	char l[LINE];
 	for (;;) {
 		int k = recv_line (c, l, sizeof l, OP_TIMEOUT);
 		if (k == -1) return 'D';
 		if (k == -2) return 'T';
-		if (l[0] == 'R') { snprintf (res, rn, "%s", l[1] == ' ' ? l + 2 : l + 1); return 'R'; }
+		if (l[0] == 'T' && l[1] == ' ') {
+			if (cur_trace) { size_t o = strlen (cur_trace); snprintf (cur_trace + o, cur_trace_n - o, "%s%s", o ? " " : "", l + 2); }
+		} else if (l[0] == 'R') { snprintf (res, rn, "%s", l[1] == ' ' ? l + 2 : l + 1); return 'R'; }
 	}
 }
 
@@ -690,14 +871,17 @@ int main (int argc, char **argv) {
 			else if (!strcmp (t[1], "kill") && n == 2) { respawn (w); puts ("ok"); }
 			else if (!op_allowed (t, n, 1, w)) puts ("bad-op");
 			else {
+				static char trace[LINE * 4];
 				char cmd[LINE], res[256] = "";
 				join_toks (cmd, sizeof cmd, t, 1, n);
+				trace[0] = 0; cur_trace = trace; cur_trace_n = sizeof trace;
 				send_cmd (&W[w], cmd);
 				int st = collect (&W[w], res, sizeof res);
+				cur_trace = NULL;
 				if (st == 'R' && !strcmp (res, "bad-op")) puts ("bad-op");
-				else if (st == 'R') { op_done (t, n, 1, w, res); printf ("%s\n", res); }
-				else if (st == 'D') { puts ("died"); respawn (w); }
-				else { puts ("TIMEOUT"); respawn (w); }
+				else if (st == 'R') { op_done (t, n, 1, w, res); printf ("%s => %s\n", trace, res); }
+				else if (st == 'D') { printf ("%s => %s\n", trace, !strncmp (t[1], "crash", 5) ? "crashed" : "died"); respawn (w); }
+				else { printf ("%s => TIMEOUT\n", trace); respawn (w); }
 			}
 			scan_ids ();
 		}
